@@ -3,7 +3,7 @@ CHECKS['C17'] = dict(
     design_ref='DESIGN.md 4 C17',
     technique='exhaustive enumeration of (old configuration, new configuration) pairs x session up/down x API state x neighbor-level change, and of every single-line fault of the new file, through the real SIGUSR1 reload path of the reactor under a virtual loop; reference peer table and deep-snapshot oracles',
     text='Successful reloads: all 256 pairs over {A absent / 2 attribute sets / other next hop} x {B} x {IPv6 C} with the session established (thorough: also down, with an API route announced or announced-then-withdrawn, and with hold-time change, neighbor added, neighbor removed for every pair; quick: subsets of those). '
-         'The peer table rebuilt from every UPDATE on the wire must equal the new configuration plus live API routes. Failing reloads: every non-empty line of the new file replaced in turn by a garbage token, an unbalanced brace, or a value that raises struct.error in a value parser, plus a missing file, session up and down: '
-         'neighbors, per-peer neighbor identity and settings, Adj-RIB-Out cache and queues, FSM and connections must be identical before and after, nothing of the refused file may reach the peer, and a following API announce must be acknowledged and sent.',
+         'The peer table rebuilt from every UPDATE on the wire must equal the new configuration plus live API routes. Failing reloads: every non-empty line of the new file replaced in turn by a garbage token, an unbalanced brace, or a value that raises struct.error in a value parser, plus a missing file, session up and down; the same faults when the running configuration has no helper program and the refused file defines one, and when the refused file turns adj-rib-out off and fails in a later neighbor section: '
+         'neighbors, processes, helper programs started, per-peer neighbor identity and settings, Adj-RIB-Out cache and queues, FSM and connections must be identical before and after, nothing of the refused file may reach the peer, and a following API announce must be acknowledged and sent.',
     note='Trusted: virtual loop, vt/ref/wire.PeerTable, the snapshot projection. Outside: family or capability changes across a reload, several processes, template inheritance.',
 )
